@@ -264,6 +264,7 @@ def replay(rp):
 
 def run(ck):
     ck.proof_side()
+    ck.cov['further_clauses'] = 'curved kinds cycled (every kind at least twice per quick run)'
     d = ck.get_driver()
     rng = ck.rng
     n = 60 if ck.tier == 'quick' else 800
